@@ -32,7 +32,9 @@ def mk_scores(ex, path, sc, ec, npos=None, nneg=None, easy=True, cls="Scores", n
     easy counts >= 0.  npos/nneg None -> unbounded symbolic length; int -> ground arrays of that length."""
     pos = P.mk_array(ex, path, name + "pos", npos, ascending=True, strict=strict, prov="attr:pos", min_len=min_pos)
     neg = P.mk_array(ex, path, name + "neg", nneg, ascending=True, strict=strict, prov="attr:neg", min_len=min_neg)
-    if easy:
+    if isinstance(easy, tuple):
+        ep, en = easy
+    elif easy:
         ep, en = Int(name + "nb_easy_pos"), Int(name + "nb_easy_neg")
         path.add(And(ep >= 0, en >= 0))
     else:
